@@ -242,6 +242,48 @@ def cases(seed: int = 0, thorough: bool = False):
                     ("x[i, ::int64(2), int64(0)]", lambda x, i, j: x[i, ::np.int64(2), np.int64(0)]),
                     ("x[int64(0), :, j]", lambda x, i, j: x[np.int64(0), :, j])]:
         add(f"advindex-numpy-int:{lbl}", mk, mk, {"x": a3, "i": i1, "j": i2}, "index", exact=True)
+    # integer PARAMETERS spelled as fixed-width NumPy integers whose arithmetic would wrap around or overflow
+    # (axis lengths whose product exceeds the type, shifts that are negated, widths added to lengths, -1 next to unsigned)
+    u1_, i1__, i8_ = np.uint8, np.int8, np.int64
+    a2013 = _arr(rng, (20, 13), "float64")
+
+    def xph():
+        return pt.make_placeholder("x", (u1_(20), u1_(13)), np.float64)
+    for lbl, b, r in [
+            ("placeholder-shape:add", lambda x: xph() + 1, lambda x: x + 1),
+            ("placeholder-shape:size", lambda x: xph() * 0 + xph().size, lambda x: x * 0 + x.size),
+            ("placeholder-shape:sum", lambda x: pt.sum(xph()), lambda x: np.sum(x)),
+            ("placeholder-shape:reshape-1", lambda x: xph().reshape(-1), lambda x: x.reshape(-1)),
+            ("placeholder-shape:T", lambda x: xph().T @ xph(), lambda x: x.T @ x),
+            ("roll:u1(250)", lambda x: pt.roll(x, u1_(250), axis=0), lambda x: np.roll(x, 250, axis=0)),
+            ("roll:i1(-100):axis-i1", lambda x: pt.roll(x, i1__(-100), axis=i1__(1)), lambda x: np.roll(x, -100, axis=1)),
+            ("roll:u64", lambda x: pt.roll(x, np.uint64(7), axis=1), lambda x: np.roll(x, 7, axis=1)),
+            ("pad:u1(120)", lambda x: pt.pad(x, u1_(120)), lambda x: np.pad(x, 120)),
+            ("pad:(u1,i1)", lambda x: pt.pad(x, (u1_(250), i1__(100))), lambda x: np.pad(x, (250, 100))),
+            ("pad:per-axis", lambda x: pt.pad(x, [(u1_(1), u1_(255)), (i8_(2), u1_(0))]), lambda x: np.pad(x, [(1, 255), (2, 0)])),
+            ("broadcast_to:u1", lambda x: pt.broadcast_to(x, (u1_(2), u1_(20), u1_(13))), lambda x: np.broadcast_to(x, (2, 20, 13))),
+            ("reshape:u1-u1", lambda x: x.reshape(u1_(13), u1_(20)), lambda x: x.reshape(13, 20)),
+            ("reshape:u1,-1", lambda x: x.reshape(u1_(26), -1), lambda x: x.reshape(26, -1)),
+            ("reshape:(u1,i1(-1))", lambda x: x.reshape((u1_(10), i1__(-1))), lambda x: x.reshape((10, -1))),
+            ("reshape:i8(-1)", lambda x: x.reshape(i8_(-1)), lambda x: x.reshape(-1)),
+            ("reshape:F:u1", lambda x: pt.reshape(x, (u1_(5), u1_(52)), order="F"), lambda x: np.reshape(x, (5, 52), order="F")),
+            ("transpose:i8", lambda x: pt.transpose(x, (i8_(1), i8_(0))), lambda x: np.transpose(x, (1, 0))),
+            ("sum:axis-i8", lambda x: pt.sum(x, axis=i8_(1)), lambda x: np.sum(x, axis=1)),
+            ("concatenate:axis-i8", lambda x: pt.concatenate([x, x], axis=i8_(1)), lambda x: np.concatenate([x, x], axis=1)),
+            ("slice:u1", lambda x: xph()[u1_(3):u1_(19):u1_(5), i1__(-1)], lambda x: x[3:19:5, -1])]:
+        add(f"np-int-param:{lbl}", b, r, {"x": a2013}, "np-int-param")
+    for lbl, b, r in [
+            ("zeros:(u1,u1)", lambda: pt.zeros((u1_(20), u1_(13))), lambda: np.zeros((20, 13))),
+            ("ones:u1", lambda: pt.ones(u1_(200), dtype="int32"), lambda: np.ones(200, dtype="int32")),
+            ("full:(u1,u1)", lambda: pt.full((u1_(20), u1_(13)), 1.5), lambda: np.full((20, 13), 1.5)),
+            ("eye:u1", lambda: pt.eye(u1_(20), u1_(13)), lambda: np.eye(20, 13)),
+            ("eye:u1:k-i1", lambda: pt.eye(u1_(20), k=i1__(-3)), lambda: np.eye(20, k=-3)),
+            ("arange:u1(250)", lambda: pt.arange(u1_(250), dtype=np.int64), lambda: np.arange(250, dtype=np.int64)),
+            ("arange:i1-range", lambda: pt.arange(i1__(-100), i1__(100), i1__(3), dtype=np.int64),
+             lambda: np.arange(-100, 100, 3, dtype=np.int64)),
+            ("arange:u1-negative-step", lambda: pt.arange(u1_(250), u1_(3), i1__(-7), dtype=np.int64),
+             lambda: np.arange(250, 3, -7, dtype=np.int64))]:
+        add(f"np-int-param:{lbl}", b, r, {}, "np-int-param", exact=True)
     # constructors
     for sh in [(2, 3), (), (0, 2)]:
         for dt in ("float64", "int32", "bool"):
